@@ -39,7 +39,11 @@ PID = "C03"
 LEVEL = "proof"
 REQUIRED_THEOREMS = [
     "parallel_schedule_independent", "kernel_schedule_independent", "chunked_schedule_independent",
-    "runWrites_kernel_value", "out_route_eq", "ghost_route_order_irrelevant", "matrix_route_eq_stencil_route",
+    "runWrites_kernel_value", "out_route_eq", "ghost_route_order_irrelevant",
+    "bernstein_schedule_independent", "runBodies_kernel", "schedule_dependent_if_out_is_read", "schedule_dependent_if_cells_shared",
+    "matrix_route_eq_stencil_route", "matrix_route_eq_stencil_route_cart2", "matrix_route_eq_stencil_route_cart3",
+    "matrix_route_eq_stencil_route_polar", "matrix_route_eq_stencil_route_polar_disk", "matrix_route_eq_stencil_route_sph",
+    "matrix_route_eq_stencil_route_sph_ball", "matrix_route_eq_stencil_route_cyl",
 ]
 RULE = ("seed-derived (grid class, shape, operator with options, per-side boundary conditions of any class incl. "
         "expressions and per-face arrays, integer field data); every case is evaluated through all routes that exist for "
